@@ -16,6 +16,10 @@
      - boolean port: j is a JSON boolean;
      - number port: j is a JSON number (not a boolean) representable as a binary64 magnitude, min <= j <= max,
        integral if the port is integer, and (j - min) / step an integer if step (non-zero) and min are declared.
+   A request whose write transform FAILS to evaluate on the value (DIV(1, $) at 0), or whose result cannot be coerced to the
+   port type, must be refused — error answer, no driver call, nothing changed (what the code does: 500 unexpected-error);
+   [accepts] does not look at the transform, the oracle (Run.spec_class_value) demands the refusal, and an acceptance of such a
+   request is a wrong delivery (the driver cannot have received coerce (transform v): there is no such value).
    Non-finite "numbers" (Infinity / NaN, which json.loads lets through, and 1e400 which it reads as inf) are in no domain.
 
    Carve-outs, where the property text decides nothing and the spec is SILENT ([spec_silent], compared model-vs-code only):
